@@ -159,7 +159,7 @@ def run_config(cfg, dataset, scheme, one, choices=None, timeout=60):
     return status, value, ch.trace
 
 
-def explore_config(cfg, make_inputs, one, max_runs=3000, timeout=60):
+def explore_config(cfg, make_inputs, one, max_runs=3000, timeout=60, on_start=None):
     """All schedules (pivot draws, optimal-vertex choices) of one configuration on one input; every
     execution gets FRESH objects from make_inputs().  Yields (choices, status, value, dataset, scheme)."""
     stack = [[]]
@@ -167,6 +167,8 @@ def explore_config(cfg, make_inputs, one, max_runs=3000, timeout=60):
     while stack:
         prefix = stack.pop()
         dataset, scheme = make_inputs()
+        if on_start is not None:
+            on_start(prefix)
         status, value, trace = run_config(cfg, dataset, scheme, one, prefix, timeout)
         runs += 1
         if runs > max_runs:
